@@ -55,7 +55,8 @@ r := n + x`,
 fr := freeze(st)
 cp := copy(st)
 cp.counter.n = 7
-r := type_name(st.counter) + "/" + type_name(fr.counter) + "/" + st.counter.n + "/" + len(st.log) + "/" + x`,
+ext := st.log + [x]
+r := type_name(st.counter) + "/" + type_name(fr.counter) + "/" + st.counter.n + "/" + len(st.log) + "/" + x + "/" + ext[len(ext) - 1]`,
 	// format() under a lowered string limit: fails for x > 4, succeeds otherwise; the text must be this object's own
 	"fmtlimit": `s := x > 4 ? long : "ok"
 r := ""
@@ -84,6 +85,12 @@ tag := "none"
 half := 1.5
 for i := 0; i < 3; i++ { bonus += i }
 r := string(bonus + total) + tag + label + string(half + ratio) + string(x)`,
+	// every object is given "its own" instance of a stateful embedder module with ReplaceBuiltinModule, all from one attribute table:
+	// the state a script updates is that object's alone
+	"stown": `st := import("st")
+st.counter.n += x
+ext := st.log + [x]
+r := st.counter.n * 1000 + ext[len(ext) - 1]`,
 	// source and builtin modules, module function constants shared by all clones
 	"modules": `math := import("math")
 m := import("mod")
@@ -97,7 +104,7 @@ func concCompile(script string) (*tengo.Compiled, error) {
 	mm.AddSourceModule("mod", []byte("export {f: func(a) { t := [a, a]; return t[0] + t[1] }}"))
 	mm.AddBuiltinModule("st", map[string]tengo.Object{
 		"counter": &tengo.Map{Value: map[string]tengo.Object{"n": &tengo.Int{Value: 0}}},
-		"log":     &tengo.Array{Value: []tengo.Object{}},
+		"log":     &tengo.Array{Value: make([]tengo.Object, 0, 8)}, // spare capacity: nothing may be appended in place
 	})
 	s.SetImports(mm)
 	_ = s.Add("x", 3)
@@ -143,6 +150,15 @@ func concHandle(raw []byte) map[string]interface{} {
 			return map[string]interface{}{"error": err.Error()}
 		}
 		objs := map[string]*tengo.Compiled{"orig": orig, "c1": orig.Clone(), "c2": orig.Clone()}
+		stownAttrs := map[string]tengo.Object{
+			"counter": &tengo.Map{Value: map[string]tengo.Object{"n": &tengo.Int{Value: 0}}},
+			"log":     &tengo.Array{Value: make([]tengo.Object, 0, 8)},
+		}
+		if cs.Script == "stown" {
+			for _, o := range objs {
+				o.ReplaceBuiltinModule("st", stownAttrs)
+			}
+		}
 		before := map[string]string{}
 		for n, o := range objs {
 			before[n] = snapshotGlobals(o)
@@ -191,6 +207,9 @@ func concHandle(raw []byte) map[string]interface{} {
 						_ = o.Set("x", 5)
 					case "Clone":
 						cl := o.Clone()
+						if cs.Script == "stown" {
+							cl.ReplaceBuiltinModule("st", stownAttrs) // as documented: a clone that is to run concurrently gets its own instance of a stateful module
+						}
 						_ = cl.Run()
 					case "Replace":
 						concReplace(o)
@@ -297,6 +316,28 @@ func concHandle(raw []byte) map[string]interface{} {
 				return map[string]interface{}{"problems": []string{"GetAll / Set / Get in tight loops on one object did not finish (deadlock)"}}
 			}
 		}
+		if cs.Script == "stown" {
+			// each object's module state moves by its own x per run, whatever the others do in between; the attribute table is untouched
+			for _, n := range []string{"orig", "c1", "c2"} {
+				o := objs[n]
+				if o.Run() != nil {
+					continue
+				}
+				r1, x := o.Get("r").Int()/1000, o.Get("x").Int()
+				for _, m := range []string{"orig", "c1", "c2"} {
+					if m != n {
+						_ = objs[m].Run()
+					}
+				}
+				_ = o.Run()
+				if r2 := o.Get("r").Int() / 1000; r2-r1 != x {
+					problems = append(problems, fmt.Sprintf("%s's own module counter moved by %d during one run of it (x = %d): other objects' runs reach its module state", n, r2-r1, x))
+				}
+			}
+			if c := stownAttrs["counter"].(*tengo.Map).Value["n"].(*tengo.Int).Value; c != 0 {
+				problems = append(problems, fmt.Sprintf("the attribute table handed to ReplaceBuiltinModule was modified by the scripts (n = %d)", c))
+			}
+		}
 		if cs.Script == "fmtlimit" && rep == 0 {
 			// storm: the original fails in format() with the string limit over and over while the clones format concurrently;
 			// every successful run of a clone must produce exactly its own text
@@ -344,6 +385,9 @@ func concHandle(raw []byte) map[string]interface{} {
 		}
 		// every object still runs alone and computes what a fresh object computes for its current x
 		for n, o := range objs {
+			if cs.Script == "stown" {
+				break // its module state accumulates by design: judged by the increments above
+			}
 			xv := o.Get("x").Int()
 			ref, _ := concCompile(cs.Script)
 			_ = ref.Set("x", xv)
